@@ -30,8 +30,11 @@ def groups(sc, tier):
                             bounded="compositions of <= %d elements" % n, restrict_retry="V_RESTRICT_LEAVES", expect_canaries=can))
     stub2, used2 = common.stubs(sc, ["Fi", "AtomicWeight", "CS_Total"], "refr")
     for f, tag in (("Refractive_Index_Re", "Re"), ("Refractive_Index_Im", "Im"), ("Refractive_Index", "complex")):
-        for kname, k, can in (("unknown", 0, ["invalid input"]), ("formula", 1, ["invalid input", tag + " element fails", tag + " defined"]),
-                              ("nist", 2, ["invalid input", tag + " element fails", tag + " defined"])):
+        gs.append(Group("C06.K5.%s.nist_as_formula" % f, "K5", "lemma_%s_nist_as_formula" % f, sources=["src/refractive_indices.c"],
+                        extra=["harness/h_cp.c", stub2, common.STATE], harness_defines=["-DNMAXEL=%d" % n],
+                        backends=("cvc5",), timeout=600, unwind=n + 2, functions=[f], stubs_used=used2, no_safety=True,
+                        bounded="compositions of <= %d elements" % n, expect_canaries=["nist defined", "nist fails"]))
+        for kname, k, can in (("unknown", 0, ["invalid input"]), ("formula", 1, ["invalid input", tag + " element fails", tag + " defined"])):
             gs.append(Group("C06.K5.%s.%s" % (f, kname), "K5", "lemma_" + f, sources=["src/refractive_indices.c"],
                             extra=["harness/h_cp.c", stub2, common.STATE], harness_defines=["-DNMAXEL=%d" % n, "-DKIND=%d" % k],
                             backends=("cvc5",), timeout=600, unwind=n + 2, functions=[f], stubs_used=used2, no_safety=True,
